@@ -17,13 +17,13 @@ func rules(c *core.Ctx) {
 	// protobuf registry must tolerate the name clashes. Messages keep their own descriptors; only
 	// the lookup-by-name registry (not used by grpc's codec) skips the later registrations.
 	os.Setenv("GOLANG_PROTOBUF_REGISTRATION_CONFLICT", "ignore")
-	c.Rule("designs: gRPC families over (types) every protobuf-mappable primitive, arrays, maps over every key kind, nested collections, aliases, user types, self-reference, inline objects, OneOf unions x {payload, result} x {required, optional, default, whole payload}; " +
+	c.Rule("designs: gRPC families over (types) every protobuf-mappable primitive, arrays, maps over every key kind, nested collections, aliases, user types, self-reference, inline objects, OneOf unions, messages holding both a user type with a union of its own (directly / in an array / in a map / as a union alternative) and a union of their own in both attribute orders x {payload, result} x {required, optional, default, whole payload}; " +
 		"(field numbers) orders, gaps, multi-byte tags, largest, around and inside the reserved range, out of range, negative, duplicate / missing at top level and in nested types, union alternatives, and next to a credential attribute (security scheme jwt / apikey / basic x credential declared first, in the middle, last x numbers right, duplicate, missing); " +
 		"(partition) one attribute in request metadata / response headers / trailers x type x requiredness, renamed keys, everything in metadata; (streaming) the four kinds x element shape x non-streamed payload shape; " +
-		"(validation) keyword x position in message / metadata; every case filtered through goa's own DSL evaluation. " +
+		"(validation) keyword x position in message / metadata; required attributes x shape x message attributes {inferred, listed, listed in part} on the request side and {inferred, listed, only a required one listed, only the optional one listed} on the response side (Response Message DSL); every case filtered through goa's own DSL evaluation. " +
 		"Per accepted design: generator run with the stand-in protoc on PATH, every generated .proto parsed again by the check and compared with the design (field numbers, uniqueness, one rpc per method, stream qualifiers). " +
 		"Per method: every candidate value of the type menus (complete product for <= 2 attributes; arrays and maps additionally hold every element and key candidate once as a one-element collection), classified by the reference validator: valid -> generated client -> grpc over bufconn -> generated server -> stub must receive an equal payload / the caller an equal result; " +
-		"invalid -> stub not invoked and client error; streaming: all sequences of length 0..2 over 2 values (thorough 0..3 over 3) plus every valid value once, per direction; " +
+		"invalid -> stub not invoked and client error; a result lacking a required field returned by the service (response-side validation cases) -> client error, no result for the caller; a required scalar attribute is not declared optional in the .proto; streaming: all sequences of length 0..2 over 2 values (thorough 0..3 over 3) plus every valid value once, per direction; " +
 		"one case = (method, value or sequence); non-trivial = value set; every case is one end-to-end execution")
 	c.Rule("validated streams (family g-streamval): " + spec.GRPCStreamValidationDoc)
 	c.Rule("client reuse (family g-reuse): " + spec.GRPCReuseDoc)
